@@ -394,3 +394,29 @@ package parser2
 //@ type-invariant Ident: self != nil
 //@ type-invariant Const: self != nil
 //@ type-invariant FunctionCall: self != nil && self.Func != nil && (forall i in 0..len(self.Args) :: self.Args[i] != nil)
+
+// ---------------------------------------------------------------- C02: reference semantics of the nodes the optimizer rewrites
+// evOK(n) / evV(n): outcome of evaluating node n (in an arbitrary, fixed environment): no error / the value.
+// opimpl / unimpl: the implementation registered for an operator; opOK/opV, unOK/unV: an implementation as a partial
+// function of its operands; tbOK/tbV: the generator's ToBool. The clauses below *define* the semantics of a node from
+// the semantics of its children (assumed where a node is created or recognised by a type switch).
+//@ ghost func evOK(n any) bool
+//@ ghost func evV(n any) any
+//@ ghost func opimpl(name string) any
+//@ ghost func unimpl(name string) any
+//@ ghost func opOK(impl any, a any, b any) bool
+//@ ghost func opV(impl any, a any, b any) any
+//@ ghost func unOK(impl any, a any) bool
+//@ ghost func unV(impl any, a any) any
+//@ ghost func tbOK(c any) bool
+//@ ghost func tbV(c any) bool
+//@ ghost func accOK(l any, i any) bool
+//@ ghost func accV(l any, i any) any
+//@ ghost func fieldOK(m any, key string) bool
+//@ ghost func fieldV(m any, key string) any
+//@ representation ListAccess: evOK(box(self)) == (evOK(self.List) && evOK(self.Index) && accOK(evV(self.List), evV(self.Index))) && (evOK(box(self)) ==> evV(box(self)) == accV(evV(self.List), evV(self.Index)))
+//@ representation MapAccess: evOK(box(self)) == (evOK(self.MapValue) && fieldOK(evV(self.MapValue), self.Key)) && (evOK(box(self)) ==> evV(box(self)) == fieldV(evV(self.MapValue), self.Key))
+//@ representation Const: evOK(box(self)) && evV(box(self)) == box(self.Value)
+//@ representation Operate: evOK(box(self)) == (evOK(self.A) && evOK(self.B) && opOK(opimpl(self.Operator), evV(self.A), evV(self.B))) && (evOK(box(self)) ==> evV(box(self)) == opV(opimpl(self.Operator), evV(self.A), evV(self.B)))
+//@ representation Unary: evOK(box(self)) == (evOK(self.Value) && unOK(unimpl(self.Operator), evV(self.Value))) && (evOK(box(self)) ==> evV(box(self)) == unV(unimpl(self.Operator), evV(self.Value)))
+//@ representation If: evOK(box(self)) == (evOK(self.Cond) && tbOK(evV(self.Cond)) && ite(tbV(evV(self.Cond)), evOK(self.Then), evOK(self.Else))) && (evOK(box(self)) ==> evV(box(self)) == ite(tbV(evV(self.Cond)), evV(self.Then), evV(self.Else)))
